@@ -330,11 +330,13 @@ func (i *inspect) tables(ctx context.Context, opts *schema.InspectOptions) ([]*s
 		if err := rows.Scan(&name, &stmt, &wr, &strict); err != nil {
 			return nil, fmt.Errorf("sqlite: scanning table: %w", err)
 		}
-		stmt = strings.TrimSpace(stmt)
+		// Constraints and expressions are extracted from the statement
+		// below, and should not be searched in the comments it may hold.
+		stmt = strings.TrimSpace(removeComments(stmt))
 		t := &schema.Table{
 			Name: name,
 			Attrs: []schema.Attr{
-				&CreateStmt{S: strings.TrimSpace(stmt)},
+				&CreateStmt{S: stmt},
 			},
 		}
 		if wr.Bool {
@@ -614,6 +616,44 @@ func matchFK(fk *schema.ForeignKey, columns []string, refTable string, refColumn
 		}
 	}
 	return true
+}
+
+// removeComments removes the SQL comments ("--" to the end of
+// the line and "/* */") that are not part of a quoted text.
+func removeComments(s string) string {
+	var b strings.Builder
+	for i := 0; i < len(s); i++ {
+		switch c := s[i]; {
+		case c == '\'' || c == '"' || c == '`' || c == '[':
+			if c == '[' {
+				c = ']'
+			}
+			j := strings.IndexByte(s[i+1:], c)
+			if j == -1 {
+				b.WriteString(s[i:])
+				return b.String()
+			}
+			b.WriteString(s[i : i+j+2])
+			i += j + 1
+		case strings.HasPrefix(s[i:], "--"):
+			j := strings.IndexByte(s[i:], '\n')
+			if j == -1 {
+				return b.String()
+			}
+			// Keep the line break.
+			i += j - 1
+		case strings.HasPrefix(s[i:], "/*"):
+			j := strings.Index(s[i+2:], "*/")
+			if j == -1 {
+				return b.String()
+			}
+			b.WriteByte(' ')
+			i += j + 3
+		default:
+			b.WriteByte(c)
+		}
+	}
+	return b.String()
 }
 
 // fillChecks extracts the CHECK constrains from the CREATE TABLE statement,
